@@ -415,8 +415,13 @@ def decode_jigg(text):
             bb = tile(proj)
             if bb != (0, len(toks)):
                 problems.append(f'root span is {bb}, sentence has {len(toks)} tokens')
-            ccgs.append(dict(id=c.attrib.get('id'), score=c.attrib.get('score'), proj=proj, problems=problems))
-        out.append(dict(tokens=toks, ccgs=ccgs))
+            ccgs.append(dict(id=c.attrib.get('id'), score=c.attrib.get('score'), proj=proj, problems=problems, span_ids=ids))
+        sent_problems = []
+        all_ids = [i for c in ccgs for i in c['span_ids']] + [c['id'] for c in ccgs] + [t.get('id') for t in toks]
+        if len(set(all_ids)) != len(all_ids):
+            dup = sorted({i for i in all_ids if all_ids.count(i) > 1})
+            sent_problems.append(f'ids are not unique within the sentence: {dup[:4]}')
+        out.append(dict(tokens=toks, ccgs=ccgs, problems=sent_problems))
     return out
 
 
